@@ -115,6 +115,19 @@ theorem compSet_closed (hG : GoodGraph G) (r : Nat) :
   simp only [compSet, decide_eq_true_eq] at hv ⊢
   exact ⟨(hG.mem hv.1 hu).2.1, by rw [← rep_congr hG (reach_adj hv.1 hu)]; exact hv.2⟩
 
+/-- the component of a representative consists of the vertices reachable from it -/
+theorem compSet_iff_reach (hG : GoodGraph G) {r : Nat} (hr : r ∈ reps G) (v : Nat) :
+    compSet G r v = true ↔ Reach G r v := by
+  have hr' := mem_reps.1 hr
+  simp only [compSet, decide_eq_true_eq]
+  constructor
+  · rintro ⟨_, hv⟩
+    have := rep_reach (G := G) v
+    rw [hv] at this
+    exact reach_symm hG this
+  · intro h
+    exact ⟨(reach_range hG hr'.1 h).2, by rw [← rep_congr hG h]; exact hr'.2⟩
+
 /-! ### the vector spaces -/
 
 /-- the edge variables `1..|E|` -/
